@@ -91,6 +91,14 @@ impl Visitor<'_> for LazyValueVisitor {
     {
         Ok(LazyValue(Bytes::from(v)))
     }
+
+    // `IoReader` hands the octets over from its own buffer
+    fn visit_bytes<E>(self, v: &[u8]) -> Result<Self::Value, E>
+    where
+        E: serde::de::Error,
+    {
+        Ok(LazyValue(Bytes::copy_from_slice(v)))
+    }
 }
 
 impl<'de> Deserialize<'de> for LazyValue {
